@@ -376,6 +376,7 @@ pub fn params_from(now: &Dump) -> anda_kip::Map<String, Json> {
     bind("b", concept("/Person", "b"), "C-9002");
     bind("d", concept("/Preference", "d"), "C-9003");
     bind("n", concept("/Insight", "n"), "C-9004");
+    bind("m", concept("/Insight", "m"), "C-9005");
     let mut props: Vec<&String> = views.keys().filter(|id| id.starts_with("P-")).collect();
     props.sort_by_key(|id| id_number(id));
     bind("p", props.first().map(|id| (*id).clone()), "P-9001");
